@@ -26,6 +26,15 @@ Section C06.
                   In (alg_name a, q) (list_header parse_q h) /\ q <> QZero.
   Proof. exact (chosen_is_listed_l parse_q parse_mime enc). Qed.
 
+  (** Safety form for arbitrary header text: the name of a chosen algorithm occurs in the header. *)
+  Theorem chosen_occurs_in_header : forall c ae o l b a c',
+    clone c ae o = (Sent l b (Alg a), c') -> exists h, ae = Some h /\ substr (alg_name a) h.
+  Proof.
+    intros c ae o l b a c' H. destruct (chosen_is_listed _ _ _ _ _ _ _ H) as [E|[a' [h [q [E [-> [_ [Hin _]]]]]]]]; [discriminate|].
+    inversion E; subst a'. exists h. split; [reflexivity|].
+    pose proof (list_header_values_substr_l parse_q true h) as Hall. rewrite Forall_forall in Hall. exact (Hall _ Hin).
+  Qed.
+
   (** A coding whose every occurrence in the list has quality 0.0 is never chosen.  (Listed twice,
       once with q=0 and once without, it may be chosen: [contains] is an [any].) *)
   Theorem never_refused : forall c ae o l b a c',
